@@ -664,3 +664,38 @@ Example unset_init_example :
   repr [OI "C" false None [F "a" RTrue true; F "b" RTrue true] [("a", 0)]] (VRef 0) (clean [])
   = (Raise EAttr, T (Some []) [] []).
 Proof. reflexivity. Qed.
+
+(** ** The marker is decided by object identity only *)
+
+Lemma paren_not_marker a b : a ^^ "(" ^^ b <> "...".
+Proof.
+  intros H. destruct a as [|c1 [|c2 [|c3 [|c4 a]]]]; cbn in H; inversion H.
+Qed.
+
+Lemma format_spec_not_marker qn fs rs : format_spec qn fs rs <> "...".
+Proof. unfold format_spec. apply paren_not_marker. Qed.
+
+(** An instance that is not ITSELF (same heap index = same object) in the thread's
+    set is never shown as ['...'], whatever else is being rendered and however the
+    objects compare under [==] (the model has no such relation at all). *)
+Lemma repr_marker_only_for_same_object_l h n o st qn sf bs fs attrs s st' :
+  nth_error h o = Some (OI qn sf bs fs attrs) ->
+  ~ In o (aset st) ->
+  repr_val h (S n) (VRef o) st = (Ok s, st') -> s <> "...".
+Proof.
+  intros Hn Hnin H. destruct (repr_format_l _ _ _ _ _ _ _ _ _ _ _ Hn Hnin H) as (rs & -> & _).
+  apply format_spec_not_marker.
+Qed.
+
+(** Two distinct instances of one class with identical field values (what any [==]
+    would call equal), one nested in the other, directly / through a list / a tuple / a
+    dict: all rendered in full. *)
+Example equal_but_distinct_example :
+  let cl := [F "x" RTrue true] in
+  let h := [OI "B" false None cl [("x", 1)]; OI "B" false None cl [("x", 2)]; OI "B" false None cl [("x", 3)];
+            OS "1";
+            OI "B" false None cl [("x", 5)]; OL [0]; OI "B" false None cl [("x", 7)]; OT [4];
+            OI "B" false None cl [("x", 9)]; OD [(3, 6)]] in
+  fst (repr h (VRef 0) (clean [])) = Ok "B(x=B(x=B(x=1)))" /\
+  fst (repr h (VRef 8) (clean [])) = Ok "B(x={1: B(x=(B(x=[B(x=B(x=B(x=1)))]),))})".
+Proof. split; reflexivity. Qed.
